@@ -129,8 +129,13 @@ func (w *c12World) publish(ver int) {
 			for _, r := range more[:ver%(len(more)+1)] {
 				text += r + "\n"
 			}
+			// A rule that another list switches off.
+			text += "||badf.shared.test^\n"
 		} else {
 			text += "@@||ads.multi-shared.com^\n"
+			// Nothing of this list's own matches the name: all it has to say
+			// about it is that the other list's rule does not count.
+			text += "||badf.shared.test^$badfilter\n"
 		}
 		if w.hashless != nil && w.l.s.T.Chance(1, 8, "rule-list-without-rules") {
 			// A version without any rule: comments only.  What was asked
@@ -339,7 +344,7 @@ func genHost(t *kernel.Tape, ver int, rs []*requester) (host string) {
 
 		return marker(t.Choose(markers, "marker"), v, kernel.Pick(t, tags, "tag"))
 	case 2:
-		return kernel.Pick(t, []string{"allowed.shared.test", "ads.multi-shared.com", "both.services.test", "always-ss.test"}, "shared-host")
+		return kernel.Pick(t, []string{"allowed.shared.test", "ads.multi-shared.com", "both.services.test", "always-ss.test", "badf.shared.test", "badf.shared.test"}, "shared-host")
 	case 3:
 		return "always.shared.test"
 	case 4:
